@@ -45,7 +45,8 @@ pub fn run(case: &Value, em: &mut Emitter) {
 /// a function map: entries sorted by (line, column) as Metro emits them; returns {"names", "mappings"}
 pub fn gen_fn_map(rng: &mut Rng, size: usize) -> Value {
     let nnames = 1 + rng.below(4);
-    let names: Vec<String> = (0..nnames).map(|i| format!("{}{}", *rng.pick(&["<global>", "fn", "Foo.bar", "λ", "anon"]), i)).collect();
+    // names: distinct by construction, except that now and then one is the EMPTY string (present, not missing)
+    let names: Vec<String> = (0..nnames).map(|i| if rng.chance(1, 8) { String::new() } else { format!("{}{}", *rng.pick(&["<global>", "fn", "Foo.bar", "λ", "anon"]), i) }).collect();
     let n = if rng.chance(1, 10) { 64 + rng.below(150) } else { rng.below((size * 3) as u64 + 1) };
     let mut text: Vec<i64> = vec![];
     let (mut line, mut col, mut name) = (1i64, 0i64, 0i64);
@@ -62,6 +63,8 @@ pub fn gen_fn_map(rng: &mut Rng, size: usize) -> Value {
         // omit trailing fields when they are zero deltas
         let mut vals = vec![nc - base_col, nn - name, nl - line];
         if vals[2] == 0 && rng.chance(2, 3) { vals.pop(); if vals[1] == 0 && rng.chance(2, 3) { vals.pop(); } }
+        // surplus fields after the third are ignored by the format's reader (Metro destructures three)
+        else if rng.chance(1, 10) { for _ in 0..1 + rng.below(3) { vals.push(rng.range(-3, 40)); } }
         text.extend(crate::c11::generate_own(&vals));
         line = nl; col = nc; name = nn;
     }
